@@ -315,6 +315,17 @@ func genC17Expr(r *core.Rng) c17Expr {
 			}
 			return "N:"
 		}}
+	case 11:
+		c := genClause(r, false, false, false)
+		c.order = false
+		c.sql = ""
+		if c.part {
+			c.sql = "PARTITION BY p"
+		}
+		c.lo, c.hi = math.MinInt, math.MaxInt
+		return c17Expr{sql: "pick(v, id) OVER (" + c.sql + ")", clause: c, needSame: true, eval: func(p []c17Row, i int, fr []c17Row) string {
+			return "I:" + strconv.Itoa(p[i].id*1000+len(fr))
+		}}
 	case 8, 9, 10:
 		c := genClause(r, true, true, true)
 		fn := []string{"FIRST_VALUE", "LAST_VALUE", "NTH_VALUE"}[r.Intn(3)]
@@ -464,6 +475,8 @@ func c17Case(w *core.Worker, i int) {
 	}
 	defer s.Close()
 	s.Exec("DECLARE usum AGGREGATE (c) AS BEGIN VAR @s := 0; VAR @x; WHILE @x IN c DO IF @x IS NOT NULL THEN @s := @s + @x; END IF; END WHILE; RETURN @s; END;")
+	// a user aggregate with a scalar parameter: every invocation (one per row, on several goroutines) must see its own argument
+	s.Exec("DECLARE pick AGGREGATE (c, @k) AS BEGIN VAR @n := 0; VAR @x; WHILE @x IN c DO @n := @n + 1; END WHILE; RETURN @k * 1000 + @n; END;")
 	judged := 0
 	var exprs []string
 	for q := 0; q < 6; q++ {
